@@ -41,6 +41,9 @@ macro_rules! with_hasher {
 
 pub struct Kit<H: Hasher> {
     pub tree: MerkleTree<H>,
+    /// the same tree assembled through the other public constructor: MerkleTree::from_raw_parts over the
+    /// nodes returned by the exported build_merkle_nodes (Err = that route panicked or refused the leaves)
+    pub raw: Result<MerkleTree<H>, String>,
     pub naive: NaiveTree<H::Digest>,
     /// digests that occur nowhere in the tree
     pub foreign: [H::Digest; 2],
@@ -62,9 +65,19 @@ pub fn kit<B: FA, H: HA<B>>(depth: u8, equal: bool, seed: u8) -> Arc<Kit<H>> {
     let n = 1usize << depth;
     // seeds 7, 15, 23, ..: every third leaf is the all-zero digest (`Digest::default()`, a legal leaf value
     // that padded leaf vectors contain)
+    // seeds 6, 5, 4, 3 (mod 8): leaf vectors with repeated digests in regular places - all left leaves equal
+    // ([a,b,a,c,a,d,..]), all right leaves equal, period four ([a,b,c,d,a,b,c,d,..]), right half = left half -
+    // so that sibling pairs share one member, or whole pairs / subtrees repeat, while the tree is not constant
     let zeros = seed % 8 == 7;
     let leaves: Vec<H::Digest> = (0..n)
         .map(|i| {
+            let i = match seed % 8 {
+                6 if i % 2 == 0 => 0,
+                5 if i % 2 == 1 => 1,
+                4 => i % 4,
+                3 => i % (n / 2).max(1),
+                _ => i,
+            };
             if zeros && i % 3 == 0 {
                 H::Digest::default()
             } else if equal {
@@ -75,8 +88,11 @@ pub fn kit<B: FA, H: HA<B>>(depth: u8, equal: bool, seed: u8) -> Arc<Kit<H>> {
         })
         .collect();
     let naive = NaiveTree::build(&leaves, &merge_fn::<H>);
+    let raw = catch(|| MerkleTree::<H>::from_raw_parts(winter_crypto::build_merkle_nodes::<H>(&leaves), leaves.clone()))
+        .map_err(|p| format!("panicked: {} at {}:{}", p.msg, p.file, p.line))
+        .and_then(|r| r.map_err(|e| format!("refused: {e}")));
     let tree = MerkleTree::<H>::new(leaves).expect("power-of-two leaves");
-    let k = Arc::new(Kit { tree, naive, foreign: [H::hash(&[seed, 0xF0, 0x0F]), H::hash(&[seed, 0xF1, 0x1F, 0x77])] });
+    let k = Arc::new(Kit { tree, raw, naive, foreign: [H::hash(&[seed, 0xF0, 0x0F]), H::hash(&[seed, 0xF1, 0x1F, 0x77])] });
     cache.write().unwrap().insert(key, k.clone());
     k
 }
@@ -116,6 +132,16 @@ fn positive<B: FA, H: HA<B>>(k: &Kit<H>, idx: &[usize], flags: &Flags, obs: &mut
     let root = *k.tree.root();
     ensure!(root == *k.naive.root(), "root", "{name}: tree root differs from the naive root");
     ensure!(k.tree.depth() == k.naive.depth(), "depth", "{name}: depth()");
+    // the tree assembled by from_raw_parts(build_merkle_nodes(leaves), leaves) is the same tree
+    match &k.raw {
+        Err(e) => return Err(Fail::new("from_raw_parts/unusable", format!("{name}: MerkleTree::from_raw_parts(build_merkle_nodes(leaves), leaves) for {} leaves {e}", k.naive.num_leaves()))),
+        Ok(raw) => {
+            ensure!(*raw.root() == root && raw.depth() == k.tree.depth() && raw.leaves() == k.tree.leaves(), "from_raw_parts/root", "{name}: the tree built by from_raw_parts differs from the one built by new()");
+            let a = catch(|| raw.prove_batch(idx).map(|p| to_op(&p))).map_err(|p| fail_panic("from_raw_parts/prove_batch", &p))?;
+            let b = catch(|| k.tree.prove_batch(idx).map(|p| to_op(&p))).map_err(|p| fail_panic("prove_batch", &p))?;
+            ensure!(a.ok() == b.ok(), "from_raw_parts/prove_batch", "{name}: the tree built by from_raw_parts opens {idx:?} differently");
+        },
+    }
     let proof = catch(|| k.tree.prove_batch(idx))
         .map_err(|p| fail_panic("prove_batch", &p))?
         .map_err(|e| Fail::new("prove_batch/err", format!("{name}: prove_batch({idx:?}) failed: {e}")))?;
@@ -750,6 +776,11 @@ fn ex_positive<B: FA, H: HA<B>>(c: &ExCase, obs: &mut Obs) -> CheckResult {
         let oc = ExCase { order: 0, ..c.clone() };
         let idx = positions_of(&oc);
         positive::<B, H>(&kz, &idx, &Flags { skip_unsorted_repack: false, verify_singles: false }, obs).map_err(|f| Fail::new(format!("zero-leaves/{}", f.key), f.msg))?;
+        // and over one of the four trees with repeated leaves (which one: by the subset)
+        let pat = 3 + (c.mask % 4) as u8;
+        let kp = kit::<B, H>(c.depth, false, pat);
+        obs.label(["leaves=halves-repeat", "leaves=period-4", "leaves=right-equal", "leaves=left-equal"][(pat - 3) as usize]);
+        positive::<B, H>(&kp, &idx, &Flags { skip_unsorted_repack: false, verify_singles: true }, obs).map_err(|f| Fail::new(format!("repeated-leaves/{}", f.key), f.msg))?;
     }
     let k = kit::<B, H>(c.depth, c.equal_leaves, 0);
     obs.label(format!("depth={}", c.depth));
